@@ -115,8 +115,9 @@ def run(v):
     v.add_tlc("MC_Grammar", t)
     cargo_build()
     mods = c07.modules_of(cases, d, "Gm")
-    nbad = checked = 0
+    nbad = checked = nsub = 0
     devhits = {}
+    seen_subs = set()
 
     def report(case, why, art, name):
         nonlocal nbad
@@ -159,6 +160,29 @@ def run(v):
             if diffs:
                 report(c, "descriptor constants differ from the source constraints of %s: %s" % (txt, "; ".join(diffs)[:300]),
                        {"asn1": txt, "expected": c["consts"], "differences": diffs, "generated": r["generated"]}, "consts_%03d.json")
+            # the definitions the generator extracts from the inline structured members of this definition
+            for sub in c.get("subs", []):
+                rows_named = [x for x in rows if x["name"] == sub["name"]]
+                nsub += 1
+                if len(rows_named) != 1:
+                    report(c, "%d generated definitions named %s for the inline type of %s" % (len(rows_named), sub["name"], txt),
+                           {"asn1": txt, "names": [x["name"] for x in rows]}, "sub_%03d.json")
+                    continue
+                rs = rows_named[0]
+                seen_subs.add(sub["name"])
+                if rs["reparsed"].startswith("ERROR") or rs["expanded"].startswith("ERROR"):
+                    report(c, "the attribute parser / expansion fails for the extracted %s of %s: %s" % (sub["name"], txt, (rs["reparsed"] + rs["expanded"])[:200]),
+                           {"asn1": txt, "generated": rs["generated"]}, "sub_%03d.json")
+                    continue
+                a, b = normalise_choice_tag(rs["rust"], rs["reparsed"])
+                if a != b:
+                    report(c, "re-parsed Rust model differs from the generator's model for the extracted %s of %s" % (sub["name"], txt),
+                           {"asn1": txt, "generated": rs["generated"], "generator_model": rs["rust"], "reparsed_model": rs["reparsed"]}, "sub_%03d.json")
+                    continue
+                diffs = check_consts(sub["name"], sub["consts"], rs["expanded"])
+                if diffs:
+                    report(c, "descriptor constants of the extracted %s differ from the inline type in %s: %s" % (sub["name"], txt, "; ".join(diffs)[:300]),
+                           {"asn1": txt, "expected": sub["consts"], "differences": diffs, "generated": rs["generated"]}, "sub_%03d.json")
     # ---- the mutation-free corpus of the repository's own test modules: model round trip only ----
     ncorpus = 0
     for i, text in enumerate(c13.corpus()):
@@ -189,12 +213,14 @@ def run(v):
     v.cov["evaluations"] += checked + ncorpus
     v.cov["distinct_nontrivial"] = len(cases)
     v.cov["corpus_definitions"] = ncorpus
+    v.cov["extracted_inline_definitions"] = nsub
     v.cov["rule"] = ("The %d definitions of Grammar.tla (see C07) and %d definitions of the repository's own test modules go through the real "
                      "pipeline at run time: parse -> resolve -> Model<Rust> -> generated Rust text -> attribute parser -> Model<Rust>; the two "
                      "Rust models must be equal per definition (Debug text; the derived tag of an untagged CHOICE is ignored). Then the macro "
                      "expansion text is scanned: MIN / MAX / EXTENSIBLE of every constrained position (incl. nested SEQUENCE OF), "
                      "STD_OPTIONAL_FIELDS / FIELD_COUNT / EXTENDED_AFTER_FIELD, VARIANT_COUNT / STD_VARIANT_COUNT / EXTENSIBLE must equal "
-                     "Grammar!Consts computed by TLC from the SOURCE abstract syntax." % (len(cases), ncorpus))
+                     "Grammar!Consts computed by TLC from the SOURCE abstract syntax - also for the %d definitions the generator extracts from "
+                     "inline structured members (Grammar!SubsOf: name = parent + member, exactly one definition of that name)." % (len(cases), ncorpus, nsub))
     v.cov["samples"] = [{"asn1": asnprint.definition(c["ast"]), "consts": c["consts"]} for c in cases[11::max(1, len(cases) // 4)][:4]]
     v.cov["checker_cmd"] = "tlc MC_Grammar (Consts); harness frontend pipeline"
     v.assumptions += ["tags of SET components / wire order are C16's subject", "Debug text equality is used as model equality"]
